@@ -223,6 +223,32 @@ def ownedFromParts (s : St) (v : CowVal) (fc : Nat) : Except Err (St × CowVal) 
     let s2 ← decStrong s1 v.ptr             -- … then the reconstituted `Arc` goes out of scope
     .ok (s2, o)
 
+/-- `Cowable::owned_from_parts` when the copy of the elements UNWINDS (`to_vec()` / `to_owned()` run the
+    element type's `Clone`, which may panic): the partially built copy is released by `Vec`'s own guard
+    (it never becomes a buffer of the model), and the `Arc` that the Shared arm re-materialised with
+    `Arc::from_raw` BEFORE the copy goes out of scope during unwinding — one strong reference is given back.
+    `none`: no user code runs on this path (Owned: `from_raw_parts`), so nothing can unwind. -/
+def ownedFromPartsUnwind (s : St) (v : CowVal) : Except Err (Option St) :=
+  match v.kind with
+  | .borrowed => do
+    let _ ← readPtr s v.ptr v.len
+    .ok (some s)
+  | .owned => .ok none
+  | .shared => do
+    let _ ← readPtr s v.ptr v.len           -- `Arc::from_raw(..)`, `to_vec()` starts reading …
+    let s2 ← decStrong s v.ptr              -- … and unwinds: the reconstituted `Arc` is dropped by the landing pad
+    .ok (some s2)
+
+/-- `Cowable::clone_from_parts` when the copy of the elements unwinds: only the Owned arm runs user code
+    (`to_vec()`); the partial copy is released, the source is untouched.  `true` = it unwound. -/
+def cloneFromPartsUnwind (s : St) (v : CowVal) : Except Err Bool :=
+  match v.kind with
+  | .owned => do
+    let _ ← readPtr s v.ptr v.len
+    .ok true
+  | .borrowed => .ok false
+  | .shared => .ok false
+
 /-! ## the value table -/
 
 def getVal (s : St) (h : Nat) : Except Err Entry :=
@@ -254,6 +280,8 @@ inductive Op
   | intoOwned (h : Nat) (fc : Nat)       -- `Cow::into_owned` (`fc`: see `freshCap`)
   | intoStdCow (h : Nat) (fc : Nat)      -- `From<Cow<T>> for std::borrow::Cow<T>`
   | drop (h : Nat)                       -- `Drop::drop`
+  | intoOwnedUnwind (h : Nat) (fc : Nat) -- `Cow::into_owned` while the element type's `Clone` panics (caught by the caller)
+  | cloneUnwind (h : Nat)                -- `Clone::clone` while the element type's `Clone` panics (caught by the caller)
   deriving DecidableEq, Repr
 
 inductive Ans
@@ -264,6 +292,7 @@ inductive Ans
   | bool (b : Bool)
   | arc (a : Nat)
   | unit
+  | unwound                              -- the call did not return: it unwound (no new value exists)
   deriving DecidableEq, Repr
 
 /-- `Cow::from_owned` -/
@@ -282,6 +311,44 @@ def bindNew (s : St) (v : CowVal) (g : Content) : Except Err (St × Nat × Conte
   let s' := pushVal s v g
   let c ← readPtr s' v.ptr v.len
   .ok (s', s.vals.length, c)
+
+/-- the `Clone::clone` arm of `step`, named so that the unwinding variant can fall back to it -/
+def stepClone (s : St) (h : Nat) : Except Err (St × Ans) := do
+  let e ← getVal s h
+  let (s1, v) ← cloneFromParts s e.val
+  let (s2, h', r) ← bindNew s1 v e.built
+  .ok (s2, .handle h' r)
+
+/-- the `Cow::into_owned` arm of `step`, named so that the unwinding variant can fall back to it -/
+def stepIntoOwned (s : St) (h fc : Nat) : Except Err (St × Ans) := do
+  let e ← getVal s h
+  let (s1, o) ← intoOwned s e.val fc
+  let (s2, h', r) ← bindNew (killVal s1 h) o e.built
+  .ok (s2, .owned h' r o.cap)
+
+/-- `Cow::into_owned` with a panicking element `Clone`: `ManuallyDrop::new(self)` comes FIRST, so `self`'s
+    destructor does not run while the panic unwinds through `into_owned` — the value is consumed, and what
+    `owned_from_parts` had taken so far is given back by its own locals (`ownedFromPartsUnwind`).  Where no
+    user code runs (Owned) the call cannot unwind and returns normally. -/
+def stepIntoOwnedUnwind (s : St) (h fc : Nat) : Except Err (St × Ans) :=
+  match getVal s h with
+  | .error er => .error er
+  | .ok e =>
+    match ownedFromPartsUnwind s e.val with
+    | .error er => .error er
+    | .ok (some s1) => .ok (killVal s1 h, .unwound)
+    | .ok none => stepIntoOwned s h fc
+
+/-- `Clone::clone` with a panicking element `Clone`: nothing has been taken when `to_vec()` unwinds, the source
+    keeps its buffer, no new value exists.  Borrowed / Shared clones run no user code and return normally. -/
+def stepCloneUnwind (s : St) (h : Nat) : Except Err (St × Ans) :=
+  match getVal s h with
+  | .error er => .error er
+  | .ok e =>
+    match cloneFromPartsUnwind s e.val with
+    | .error er => .error er
+    | .ok true => .ok (s, .unwound)
+    | .ok false => stepClone s h
 
 def step (s : St) : Op → Except Err (St × Ans)
   | .newArc c =>
@@ -311,11 +378,7 @@ def step (s : St) : Op → Except Err (St × Ans)
       let (s2, h, r) ← bindNew s1 { ptr := .arc a, len := c.content.length, cap := usizeMax } c.content
       .ok (s2, .handle h r)
     | none => .error .noArcHeld
-  | .clone h => do
-    let e ← getVal s h
-    let (s1, v) ← cloneFromParts s e.val
-    let (s2, h', r) ← bindNew s1 v e.built
-    .ok (s2, .handle h' r)
+  | .clone h => stepClone s h
   | .deref h => do
     let e ← getVal s h
     let c ← readPtr s e.val.ptr e.val.len
@@ -326,11 +389,7 @@ def step (s : St) : Op → Except Err (St × Ans)
     let c1 ← readPtr s e1.val.ptr e1.val.len
     let c2 ← readPtr s e2.val.ptr e2.val.len
     .ok (s, .bool (c1 == c2))
-  | .intoOwned h fc => do
-    let e ← getVal s h
-    let (s1, o) ← intoOwned s e.val fc
-    let (s2, h', r) ← bindNew (killVal s1 h) o e.built
-    .ok (s2, .owned h' r o.cap)
+  | .intoOwned h fc => stepIntoOwned s h fc
   | .intoStdCow h fc => do
     let e ← getVal s h
     match e.val.kind with
@@ -347,6 +406,8 @@ def step (s : St) : Op → Except Err (St × Ans)
     let e ← getVal s h
     let s1 ← dropFromParts s e.val
     .ok (killVal s1 h, .unit)
+  | .intoOwnedUnwind h fc => stepIntoOwnedUnwind s h fc
+  | .cloneUnwind h => stepCloneUnwind s h
 
 def run (s : St) : List Op → Except Err St
   | [] => .ok s
@@ -378,6 +439,8 @@ def wfOp (s : St) : Op → Bool
   | .intoOwned h _ => liveHandle s h
   | .intoStdCow h _ => liveHandle s h
   | .drop h => liveHandle s h
+  | .intoOwnedUnwind h _ => liveHandle s h
+  | .cloneUnwind h => liveHandle s h
 
 /-- each op is well-formed in the state in which it executes (nothing is demanded after an error — the
     safety theorem shows there is none) -/
